@@ -57,12 +57,23 @@ impl Machine {
     pub fn digest(&self) -> String { sha1_hex(&self.trace.join("\n")) }
 }
 
+/// Runs `f` with the native stack pointer `kib` KiB below the caller's: what a host does when it steps an
+/// interpreter from a deeper frame (an event handler, a host function of another instance).
+#[inline(never)]
+fn displaced(kib: usize, f: &mut dyn FnMut()) {
+    if kib == 0 { return f(); }
+    let pad = [0u8; 4096]; std::hint::black_box(&pad);
+    displaced(kib.saturating_sub(4), f);
+    std::hint::black_box(&pad);
+}
+
 fn solo(p: &Prog) -> Vec<String> { let mut m = Machine::new(p); m.run_all(); m.trace }
 
 /// All schedules with at most `k` context switches: a schedule is the list of run lengths, starting with A or B.
 fn interleave(v: &serde_json::Value) -> serde_json::Value {
     let a = prog(&v["a"]); let b = prog(&v["b"]); let k = v.get("switches").and_then(|x| x.as_u64()).unwrap_or(2) as usize; let stride = v.get("stride").and_then(|x| x.as_u64()).unwrap_or(1).max(1) as usize;
     let sa = solo(&a); let sb = solo(&b); let (na, nb) = (sa.len(), sb.len());
+    let disp = v.get("displace_kib").and_then(|x| x.as_u64()).unwrap_or(0) as usize;
     let mut schedules: Vec<Vec<(u8, usize)>> = vec![]; // (who, steps); the final segments run to completion
     // enumerate cut points: a schedule with s switches starting with X is X:c1, Y:c2, X:c3 ... last runs to the end
     fn rec(out: &mut Vec<Vec<(u8, usize)>>, cur: &mut Vec<(u8, usize)>, who: u8, left: [usize; 2], switches_left: usize, stride: usize) {
@@ -86,7 +97,10 @@ fn interleave(v: &serde_json::Value) -> serde_json::Value {
     let mut runs = 0u64; let mut bad: Vec<serde_json::Value> = vec![]; let mut nbad = 0u64; let mut distinct = std::collections::HashSet::new();
     for s in &schedules {
         let mut ma = Machine::new(&a); let mut mb = Machine::new(&b);
-        for (who, cnt) in s { let m = if *who == 0 { &mut ma } else { &mut mb }; let mut c = 0; while !m.done && c < *cnt { m.advance(); c += 1; } }
+        // each machine's own segments alternate between the host's top frame and a frame `displace_kib` deeper
+        let mut segs = [0usize; 2];
+        for (who, cnt) in s { let m = if *who == 0 { &mut ma } else { &mut mb }; let kib = if segs[*who as usize] % 2 == 1 { disp } else { 0 }; segs[*who as usize] += 1;
+            displaced(kib, &mut || { let mut c = 0; while !m.done && c < *cnt { m.advance(); c += 1; } }); }
         ma.run_all(); mb.run_all(); runs += 1;
         distinct.insert(format!("{:?}", s.iter().map(|x| x.1.min(9999)).collect::<Vec<_>>()));
         for (name, got, want) in [("a", &ma.trace, &sa), ("b", &mb.trace, &sb)] {
@@ -94,7 +108,7 @@ fn interleave(v: &serde_json::Value) -> serde_json::Value {
                 bad.push(serde_json::json!({"schedule": s.iter().map(|(w, c)| format!("{}:{}", if *w == 0 { "a" } else { "b" }, if *c == usize::MAX { "end".to_string() } else { c.to_string() })).collect::<Vec<_>>(), "who": name, "at_step": at, "got": got.get(at), "want": want.get(at)})); } }
         }
     }
-    serde_json::json!({"status": "ok", "schedules": runs, "steps_a": na, "steps_b": nb, "nbad": nbad, "bad": bad, "distinct": distinct.len(), "stride_used": stride})
+    serde_json::json!({"status": "ok", "schedules": runs, "steps_a": na, "steps_b": nb, "nbad": nbad, "bad": bad, "distinct": distinct.len(), "stride_used": stride, "displace_kib": disp})
 }
 
 #[derive(Clone, Copy, Debug, PartialEq, Eq, Hash)]
